@@ -162,58 +162,6 @@ theorem union_reset_partial (p : Params) (u : Un ν) (hk : u.gadget.lgK = u.lgMa
 
 /-! ## Whole histories without precision reduction -/
 
-/-- the histories for which the full statements ARE proved: lvalue updates whose HLL-mode inputs have exactly lg_k = lg_max_k
-(LIST / SET inputs of any lg_k), raw items, estimate calls and resets in any interleaving; coupons are genuine (a nonzero
-coupon has a positive value, as every `HllUtil::coupon` has). What is missing for the full statements is exactly the two
-defects: inputs that force a precision reduction (D1, and D14 after a reset) — and the rvalue overload (correspondence only). -/
-def NoReduction (ν : Type) [HNum ν] (p : Params) (lgMaxK : Nat) (ops : List UOp) : Prop :=
-  ∀ op, op ∈ ops → match op with
-    | .merge d rv => rv = false ∧ d.lgK ≤ p.keyBits ∧ ((d.build p : St ν).mode = .hll → d.lgK = lgMaxK) ∧
-        ∀ c, c ∈ d.cs → c ≠ 0 → 0 < cValue p c
-    | .coupon c => c ≠ 0 → 0 < cValue p c
-    | _ => True
-
-theorem union_gadget_inv_aux (p : Params) (hp : p.listFitsSet) (lgMaxK : Nat) (hkb : lgMaxK ≤ p.keyBits) :
-    ∀ (ops : List UOp) (u : Un ν) (cs : List Nat), u.lgMaxK = lgMaxK → GInv p lgMaxK u.gadget cs → NoReduction ν p lgMaxK ops →
-      GInv p lgMaxK (uRun p u ops).gadget (ops.foldl offeredStep cs) ∧ (uRun p u ops).lgMaxK = lgMaxK
-  | [], u, cs, hu, hg, _ => ⟨hg, hu⟩
-  | op :: ops, u, cs, hu, hg, hok => by
-    have hop := hok op List.mem_cons_self
-    have hrest : NoReduction ν p lgMaxK ops := fun o ho => hok o (List.mem_cons_of_mem _ ho)
-    have step : GInv p lgMaxK (uStep p u op).gadget (offeredStep cs op) ∧ (uStep p u op).lgMaxK = lgMaxK := by
-      cases op with
-      | coupon c =>
-        exact ⟨hg.coupon hp c hop, hu⟩
-      | touch => exact ⟨hg.touch, hu⟩
-      | reset => exact ⟨hg.reset, hu⟩
-      | merge d rv =>
-        obtain ⟨hrv, hdk, hdl, hdv⟩ := hop
-        subst hrv
-        show GInv p lgMaxK (unionUpdate p u (d.build p)).gadget (cs ++ d.cs) ∧ (unionUpdate p u (d.build p)).lgMaxK = lgMaxK
-        have hemp : isEmpty (d.build p : St ν) = true → ∀ c, c ∈ d.cs → c = 0 :=
-          (hll_empty_iff (ν := ν) p hp d.lgK d.tt d.sf d.cs hdv).1
-        cases hsf : d.sf with
-        | false =>
-          have hR := RInv.run hp d.cs (RInv.init (ν := ν) p d.lgK d.tt)
-          simp only [List.nil_append] at hR
-          have hb : (d.build p : St ν) = run p (newList p d.lgK d.tt) d.cs := by
-            unfold SkDesc.build newSketch; rw [hsf]; rfl
-          rw [hb] at hemp hdl ⊢
-          refine hg.unionUpdate hp hkb hu _ d.cs (fun _ => by rw [hR.lgK_eq]; exact hR)
-            (fun hm => ⟨hR.hll hm, hR.lgK_eq.trans (hdl hm)⟩) hdv hemp
-        | true =>
-          have hS := run_startFull p d.cs (s := (newHll d.lgK d.tt true : St ν)) (cs := []) rfl
-            (by have := HInv.newHll (ν := ν) p d.lgK d.tt true
-                exact ⟨this.size, fun slot hs => IsMaxAt.congr (by simp) (this.regs slot hs), this.cm_le, this.cnt4, this.cnt68⟩)
-          simp only [List.nil_append] at hS
-          have hb : (d.build p : St ν) = run p (newHll d.lgK d.tt true) d.cs := by
-            unfold SkDesc.build newSketch; rw [hsf]; rfl
-          rw [hb] at hemp hdl ⊢
-          refine hg.unionUpdate hp hkb hu _ d.cs (fun hm => absurd hS.1 hm)
-            (fun hm => ⟨hS.2.2.2, hS.2.1.trans (hdl hm)⟩) hdv hemp
-    have ih := union_gadget_inv_aux p hp lgMaxK hkb ops (uStep p u op) (offeredStep cs op) step.2 step.1 hrest
-    simpa [uRun] using ih
-
 /-- the gadget invariant after any history without precision reduction -/
 theorem union_gadget_inv (p : Params) (hp : p.listFitsSet) (lgMaxK : Nat) (hkb : lgMaxK ≤ p.keyBits) (ops : List UOp)
     (hok : NoReduction ν p lgMaxK ops) :
@@ -308,33 +256,6 @@ theorem union_result_determined (p : Params) (hp : p.listFitsSet) (lgMaxK : Nat)
     · rintro ⟨h1, h2⟩; exact ⟨(hsame c h2).1 h1, h2⟩
     · rintro ⟨h1, h2⟩; exact ⟨(hsame c h2).2 h1, h2⟩
 
-/-- coupons offered by a history without resets -/
-theorem mem_offered_aux : ∀ (ops : List UOp) (acc : List Nat) (c : Nat),
-    (∀ o, o ∈ ops → o ≠ .reset) →
-    (c ∈ ops.foldl offeredStep acc ↔ (c ∈ acc ∨ ∃ o, o ∈ ops ∧ c ∈ offeredStep [] o))
-  | [], acc, c, _ => by simp
-  | o :: ops, acc, c, hnr => by
-    simp only [List.foldl_cons]
-    rw [mem_offered_aux ops (offeredStep acc o) c (fun x hx => hnr x (List.mem_cons_of_mem _ hx))]
-    have ho := hnr o List.mem_cons_self
-    have e : c ∈ offeredStep acc o ↔ (c ∈ acc ∨ c ∈ offeredStep [] o) := by
-      cases o with
-      | merge d rv => simp [offeredStep]
-      | coupon x => simp [offeredStep]
-      | touch => simp [offeredStep]
-      | reset => exact absurd rfl ho
-    rw [e]
-    simp only [List.mem_cons]
-    constructor
-    · rintro ((h1 | h1) | ⟨x, hx, h1⟩)
-      · exact Or.inl h1
-      · exact Or.inr ⟨o, Or.inl rfl, h1⟩
-      · exact Or.inr ⟨x, Or.inr hx, h1⟩
-    · rintro (h1 | ⟨x, rfl | hx, h1⟩)
-      · exact Or.inl (Or.inl h1)
-      · exact Or.inl (Or.inr h1)
-      · exact Or.inr ⟨x, hx, h1⟩
-
 /-- `union_perm_invariant` — PARTIAL (histories without precision reduction and without reset): presenting the same
 updates in another order gives the same result. -/
 theorem union_perm_invariant_partial (p : Params) (hp : p.listFitsSet) (lgMaxK : Nat) (hkb : lgMaxK ≤ p.keyBits)
@@ -379,6 +300,43 @@ theorem union_estimate_pure_partial (p : Params) (hp : p.listFitsSet) (lgMaxK : 
     simp [offered, List.foldl_append, offeredStep]
   rw [e]
 
+/-- lvalue / rvalue independence — PARTIAL (histories without precision reduction): turning any lvalue update into an
+rvalue update (adoption shortcut) or back does not change the result. -/
+def flipRv : UOp → UOp
+  | .merge d rv => .merge d (!rv)
+  | o => o
+
+theorem union_lvalue_eq_rvalue_partial (p : Params) (hp : p.listFitsSet) (lgMaxK : Nat) (hkb : lgMaxK ≤ p.keyBits)
+    (ops : List UOp) (flip : UOp → Bool) (hok : NoReduction ν p lgMaxK ops) (tt : TType) :
+    let ops' := ops.map (fun o => if flip o then flipRv o else o)
+    let r : St ν := unionResult p (uRun p (newUnion p lgMaxK) ops) tt
+    let r' : St ν := unionResult p (uRun p (newUnion p lgMaxK) ops') tt
+    r.lgK = r'.lgK ∧ (r.mode = .hll → r'.mode = .hll → r.regs = r'.regs) ∧
+    (r.mode ≠ .hll → r'.mode ≠ .hll → ∀ c, c ∈ r.items ↔ c ∈ r'.items) := by
+  intro ops'
+  have hstep : ∀ (acc : List Nat) (o : UOp), offeredStep acc (if flip o then flipRv o else o) = offeredStep acc o := by
+    intro acc o
+    by_cases hf : flip o = true
+    · rw [if_pos hf]; cases o <;> rfl
+    · rw [if_neg hf]
+  have hoff : ∀ (l : List UOp) (acc : List Nat),
+      (l.map (fun o => if flip o then flipRv o else o)).foldl offeredStep acc = l.foldl offeredStep acc := by
+    intro l
+    induction l with
+    | nil => intro acc; rfl
+    | cons o t ih => intro acc; simp only [List.map_cons, List.foldl_cons]; rw [hstep, ih]
+  have hok' : NoReduction ν p lgMaxK ops' := by
+    intro o ho
+    rcases List.mem_map.1 ho with ⟨o0, ho0, rfl⟩
+    have := hok o0 ho0
+    by_cases hf : flip o0 = true
+    · rw [if_pos hf]; cases o0 <;> exact this
+    · rw [if_neg hf]; exact this
+  refine union_result_determined (ν := ν) p hp lgMaxK hkb ops ops' hok hok' tt tt ?_
+  intro c _
+  unfold offered
+  rw [hoff ops []]
+
 /-! Non-vacuity: concrete sketches meet the hypotheses (via C03's `hll_regs_max`), and a concrete union behaves as stated. -/
 def exDst : St Unit := run uP (newSketch uP 4 .h8 true) [cPair uP 1 1, cPair uP 5 3]
 def exSrc : St Unit := run uP (newSketch uP 6 .h4 true) [cPair uP 3 2, cPair uP 21 4, cPair uP 37 6]
@@ -402,7 +360,7 @@ example : (unionResult uP exU .h4).regs.getD 9 0 = 7 ∧ (unionResult uP exU .h4
 an estimate call and a reset in between -/
 def wL : SkDesc := { lgK := 9, tt := .h4, sf := false, cs := [cPair uP 300 2, cPair uP 5 1, cPair uP 300 2] }
 def exOps : List UOp :=
-  [.merge wL false, .coupon (cPair uP 9 7), .merge wD false, .touch, .coupon (cPair uP 70 3), .reset, .merge wD false, .merge wL false]
+  [.merge wL false, .coupon (cPair uP 9 7), .merge wD true, .touch, .coupon (cPair uP 70 3), .reset, .merge wC true, .merge wL false]
 example : NoReduction Unit uP 6 exOps := by
   intro op hop
   simp only [exOps, List.mem_cons, List.not_mem_nil, or_false] at hop
